@@ -148,6 +148,21 @@ def gen_cases(rng, tier):
             case["ignore"] = r.choice([["_generated"], ["_source", "_classification"], names[:1] or ["x"],
                                        names + ["_generated", "_version"]])
         cases.append(case)
+    # ---- timestamps that are EQUAL as Python objects (same instant) but differ in UTC offset, and wall clocks of one
+    # zone that differ only in fold: each must come back with its own offset, whatever was packed before it
+    c7 = [2021, 3, 4, 12, 30, 15, 123456]
+    same = [["dt", c7, "utc", 0], ["dt", [2021, 3, 4, 14, 30, 15, 123456], ["fixed", 7200, 0], 0],
+            ["dt", [2021, 3, 4, 7, 30, 15, 123456], ["fixed", -18000, 0], 0],
+            ["dt", [2021, 3, 4, 13, 0, 15, 123456], ["fixed", 1800, 0], 0]]
+    folds = [["dt", [2020, 10, 25, 2, 30, 0, 0], ["zone", "Europe/Amsterdam"], 0],
+             ["dt", [2020, 10, 25, 2, 30, 0, 0], ["zone", "Europe/Amsterdam"], 1]]
+    DD = ["t/dts", [["datetime", "a"], ["datetime", "b"], ["datetime[]", "l"]]]
+    GENM = {"_generated": ["dt", [2020, 1, 1, 0, 0, 0, 0], "utc", 0]}
+    for group in (same, list(reversed(same)), folds, list(reversed(folds))):
+        recs = [["rec", DD, [group[i % len(group)], group[(i + 1) % len(group)], ["list", list(group)]], dict(GENM)]
+                for i in range(len(group))]
+        for via in ("fileobj", "path"):
+            cases.append({"kind": "stream", "via": via, "records": recs})
     # ---- the field-type layer on its own: value -> _pack() -> msgpack round trip -> _unpack()
     r = rng.fork("field")
     for t in sorted(FIELD_KINDS):
